@@ -113,12 +113,26 @@ def strings_for(p, vs):
     return st.one_of(*alts)
 
 
+def lone_call(p, s, c, col):
+    """one text in ONE carrier only, between two rounds: whatever the routines remember about an input class, they now
+    remember it for this carrier alone"""
+    col.label("history:lone-carrier-call")
+    outcome(tl.unmarshal, p.T, inputs.carry(s, c))
+    p.hist.append([_gen(s), c])
+
+
 def check_carriers(p, s, col):
     mat = p.mat
     outs = {}
+    if not hasattr(p, "hist"):
+        p.hist = []
+    staggered = any(len(h) == 2 for h in p.hist)
     for c in inputs.CARRIERS:
         col.ev()
         outs[c] = outcome(tl.unmarshal, p.T, inputs.carry(s, c))
+    if staggered:
+        col.label("carriers:after-lone-calls")
+    p.hist.append([_gen(s)])
     special = (not s.isascii()) or s in TEXTS or len(s) > 200 or any(ch in s for ch in "\x1c\x1d\x1e\x1f\x0b\x0c")
     for c in ("bytearray", "memoryview(bytearray)"):
         col.nt(p.key + s[:200] + str(len(s)) + c)
@@ -132,7 +146,8 @@ def check_carriers(p, s, col):
     for c, o in outs.items():
         same = (o == ref) if ref[0] == "ok" else (o[0] == "exc")
         if not same:
-            col.violation("carriers-agree", p.case(text=s if len(s) < 400 else None, text_gen=_gen(s), carrier=c),
+            col.violation("carriers-agree", p.case(text=s if len(s) < 400 else None, text_gen=_gen(s), carrier=c,
+                                                   **({"history": list(p.hist)} if staggered else {})),
                           f"unmarshal({mat.root_expr}, {s[:60]!r}...): str -> {_d(ref)}, {c} -> {_d(o)}",
                           bucket=f"{c}|{o[1] if o[0] == 'exc' else 'value'}|{ref[1] if ref[0] == 'exc' else 'value'}"[:100])
 
@@ -316,6 +331,8 @@ def check_direct(kind, text, carrier, col):
 # ---- runner interface ----------------------------------------------------------------------------
 
 def per_program(p):
+    if p.data is not None and p.draw(st.integers(0, 2)) == 0:
+        p.warm("marshaller")   # the routines of the other direction built first
     try:
         # 64-bit ints: the configured JSON decoder (orjson) reads larger ints as floats, so the
         # text of such a wire value is legitimately not equivalent to the value (DESIGN C14)
@@ -323,7 +340,10 @@ def per_program(p):
     except U._Exhausted:
         vs = None
     strs = strings_for(p, vs)
+    p.hist = []
     for _ in range(8):
+        if p.hist and p.draw(st.integers(0, 2)) == 0:
+            lone_call(p, p.draw(strs), p.draw(st.sampled_from(inputs.CARRIERS)), p.col)
         check_carriers(p, p.draw(strs), p.col)
     if vs is not None and U.strip(p.spec)["k"] in ("list", "set", "frozenset", "deque", "vtuple", "tuple", "dict", "class"):
         for _ in range(4):
@@ -338,6 +358,8 @@ def plan(tier, seed):
     # shallow annotations (Literal / Enum / scalar unions at or just below the root): many more programs per second,
     # and the place where a text and the value it decodes to can both be acceptable
     shards += [{"kind": "progs", "seed": seed * 1000 + 80 + k, "n": 400 if tier == "quick" else 8000, "depth": 1} for k in range(4)]
+    # unions of leaf types: one input class, several members that may take it
+    shards += [{"kind": "progs", "seed": seed * 1000 + 90 + k, "n": 150 if tier == "quick" else 3000, "depth": 1, "unions": True} for k in range(4)]
     return shards
 
 
@@ -346,7 +368,8 @@ def run_shard(shard, col):
         core.drive(direct_case(), lambda c: check_direct(*c, col), n=shard["n"], seed=shard["seed"], col=col)
         return
     progs.drive_programs(col, seed=shard["seed"], n=shard["n"],
-                         spec_strategy=U.root_specs(max_depth=shard["depth"], mods=2), per_program=per_program)
+                         spec_strategy=U.scalar_union_specs() if shard.get("unions") else U.root_specs(max_depth=shard["depth"], mods=2),
+                         per_program=per_program)
 
 
 def _text(case):
@@ -370,7 +393,16 @@ def replay(clause, case, col):
                 col.violation("text-equals-decoded", case, f"decoded {_d(base)} vs {case['form']} text {_d(o)}", bucket=case["form"])
         progs.replay_program(case, col, f)
     else:
-        progs.replay_program(case, col, lambda p: check_carriers(p, _text(case), col))
+        def g(p):
+            p.hist = []
+            for h in case.get("history", ()):
+                t = eval(h[0], {"LONG": LONG})  # noqa: S307
+                if len(h) == 2:
+                    lone_call(p, t, h[1], core.Collector(ID))
+                else:
+                    check_carriers(p, t, core.Collector(ID))
+            check_carriers(p, _text(case), col)
+        progs.replay_program(case, col, g)
 
 
 def cg_plan(seed):
